@@ -49,7 +49,7 @@ PROPS = {
                        'mint/burn authority and allowance bounds proved per message; histories by holders, spenders and the hub, all instantiate shapes incl. repeated addresses',
     },
     'C03': {
-        'families': [gen('pricing', 30, 120), gen('mixed', 20, 120), gen('dust', 15, 120), gen('drain', 20, 120)],
+        'families': [matrix('c05'), gen('pricing', 30, 120), gen('mixed', 20, 120), gen('dust', 15, 120), gen('drain', 20, 120)],
         'slice': PRICING_KINDS + [r'tok\.burn', r'tok\.burnfrom', r'env\.slash'],
         'explanation': 'reported-rate formula and the pricing of every mint/redeem proved on the model; State vs TokenInfo x2 vs CurrentBatch recomputed on every implementation step, minted amounts recomputed from the pre-state rate',
     },
@@ -61,7 +61,7 @@ PROPS = {
     },
     'C05': {
         'corpus': ['D2.ops'],
-        'families': [gen('pegfee', 40, 100), gen('pricing', 25, 120), gen('dust', 15, 120)],
+        'families': [matrix('c05'), gen('pegfee', 40, 100), gen('pricing', 25, 120), gen('dust', 15, 120)],
         'slice': [r'hub\.bond', r'tok\.send\.unbond', r'tok\.sendfrom\.unbond', r'tok\.send\.convert', r'tok\.sendfrom\.convert'],
         'explanation': 'fee bounds and never-past-the-peg proved for bond, unbond, convert stSei->bSei; convert bSei->stSei proved under the exact cap (D2 is the code not respecting it)',
     },
@@ -122,13 +122,13 @@ PROPS = {
         'explanation': 'epoch gate, single write of consecutive batch ids, release only after the unbonding period, finality of released entries proved on the model; AllHistory snapshots compared between all steps with time advances landing on, one before and one after the epoch and maturity boundaries',
     },
     'C01': {
-        'corpus': ['D1.ops', 'D5.ops'],
+        'corpus': ['D1.ops', 'D5.ops', 'zero-arrival-release.ops'],
         'families': [gen('release', 40, 120, deep=True), gen('dust', 20, 120, deep=True), gen('mixed', 15, 120)],
         'slice': [r'hub\.withdraw', r'env\.advance', r'env\.slashu', r'env\.donate', r'tok\.send\.unbond', r'tok\.sendfrom\.unbond'],
         'explanation': 'payout = recorded share, single payment, order independence and the single-batch allocation bound proved; release groups of many batches with slashed unbonding stake, donations, many users per batch: released claims vs hub balance after every step, payout recomputed, second withdrawal, unfunded-claim probe (clone with extra coins)',
     },
     'C13': {
-        'corpus': ['reg-remove-zero-delegation.ops'],
+        'corpus': ['reg-remove-zero-delegation.ops', 'reg-remove-last-idle.ops'],
         'families': [gen('registry', 40, 120), gen('mixed', 15, 120)],
         'slice': [r'reg\..*', r'hub\.redel', r'hub\.bond', r'hub\.bondst', r'hub\.ugi', r'env\.noredel'],
         'explanation': 'registry removal / hub proxy / chain redelegation proved step by step (plan sums to the whole delegation via C12, targets still registered); end-to-end RemoveValidator transactions on the minichain with pending rewards, in-flight batches, blocked redelegations, removal and re-addition sequences',
